@@ -2,9 +2,12 @@ package main
 
 import (
 	"fmt"
+	"go/token"
 	"go/types"
 	"strings"
 	"unicode/utf8"
+
+	"golang.org/x/tools/go/ssa"
 )
 
 // c10R9: "exactly those written, in order, regardless of insignificant whitespace, comments and line breaks inside
@@ -157,4 +160,64 @@ func c10R9(h H) {
 		}
 	}
 	r.Check(bad == "" && nrun == len(cases), "R9", "casketfile.allTokens/lexer-table", fn.Pos(), "the tokens are the written words, in order, whatever the layout, with the line each begins on", fmt.Sprintf("%d texts lexed", nrun), bad)
+}
+
+// c10R10: a parse depends on the text it is given and on the files it imports — not on an earlier parse.  The reload
+// path parses the configuration again in the same process; anything the parser remembered in package-level state
+// (tokens of an imported file, say, keyed by name and modification time) makes a later reload answer with what was on
+// disk earlier.  In package casketfile no function other than the package initialiser writes a package-level
+// variable: no store to one (or to a field or element of one) and no update of a map held in one.
+func c10R10(h H) { parserHasNoMemory(h, "R10") }
+
+func parserHasNoMemory(h H, rule string) {
+	r := h.r
+	r.Rule(rule, "the parser has no memory: in package casketfile no function outside the package initialisers stores to a package-level variable (or a field or element of one) or updates a map held in one — a second parse in the same process (a reload) sees exactly what a first one would", 1)
+	underGlobal := func(v ssa.Value) *ssa.Global {
+		for i := 0; i < 8; i++ {
+			switch t := v.(type) {
+			case *ssa.Global:
+				if t.Pkg != nil && strings.HasSuffix(t.Pkg.Pkg.Path(), "/"+cfPkg) {
+					return t
+				}
+				return nil
+			case *ssa.FieldAddr:
+				v = t.X
+			case *ssa.IndexAddr:
+				v = t.X
+			case *ssa.UnOp:
+				v = t.X
+			default:
+				return nil
+			}
+		}
+		return nil
+	}
+	n, bad := 0, ""
+	var pos token.Pos
+	for _, fn := range h.p.PkgFuncs(cfPkg) {
+		for _, g := range withClosures(fn) {
+			if g.Name() == "init" || strings.HasPrefix(g.Name(), "init#") {
+				continue
+			}
+			n++
+			allInstrs(g, func(in ssa.Instruction) {
+				var gl *ssa.Global
+				switch t := in.(type) {
+				case *ssa.Store:
+					gl = underGlobal(t.Addr)
+				case *ssa.MapUpdate:
+					gl = underGlobal(t.Map)
+				}
+				if gl != nil && bad == "" {
+					bad = sprintf("%s writes the package-level variable %s at %s", shortFunc(g), gl.Name(), h.p.Pos(in.Pos()))
+					pos = in.Pos()
+				}
+			})
+		}
+	}
+	if n < 20 {
+		r.Unresolve(rule, sprintf("package casketfile: only %d functions found", n))
+		return
+	}
+	r.Check(bad == "", rule, "casketfile/no-package-state-written-while-parsing", pos, "nothing of one parse is remembered for the next", sprintf("%d functions examined", n), bad)
 }
